@@ -12,7 +12,7 @@
      T <hex name> <arg>                declaration  T name = <arg>;
      RET <arg>                         return expression (absent: no value)
      ENDCALL
-   <comp> ::= VAL I <decimal> | VAL S [<hex>] | <call>
+   <comp> ::= VAL I <decimal> | VAL S [<hex>] | VAL F <0|1> <m> <e> (the double (-1)^neg * m * 2^e) | <call>
    <arg>  ::= Q<hex> string literal token text | I<decimal> effect-free integer expression | S<hex> effect-free
               string expression | R<hex> any other expression, by its source text
    The A / L / statement lines of a call may come in any order; statements keep their order.
@@ -92,6 +92,9 @@ and read_comp () : comp =
   | ["VAL"; "I"; v] -> CVal (VInt (z_of_string v))
   | ["VAL"; "S"; v] -> CVal (VStr (unhex v))
   | ["VAL"; "S"] -> CVal (VStr [])
+  | ["VAL"; "F"; ng; m; e] ->
+      let mz = Int64.of_string m in
+      CVal (VFlt (ng = "1", (if Int64.equal mz 0L then N0 else Npos (pos_of_u64 mz)), z_of_string e))
   | ["CALL"] -> read_call ()
   | w -> failwith ("bad comp: " ^ String.concat " " w)
 
